@@ -2322,7 +2322,7 @@ class SEVM:
 
         # conditional transfer
         if condition is not None:
-            value = If(condition, value, Z3_ZERO)
+            value = BV(If(condition, value.as_z3(), Z3_ZERO))
 
         ex.balance_update(caller, BV(caller_balance).sub(value))
         # NOTE: ex.balance_of(to) must be called **after** updating the caller's balance above, to correctly handle the self-transfer case
